@@ -382,19 +382,14 @@ Proof.
   destruct (stored (sr (nd s))) as [[sn|]|]; auto.
   destruct (clear && (eidx (s_e1 sn) <=? applied (nd s))); auto.
   destruct (self_ver (nd s) <? s_ver sn); auto.
-  set (s1 := upd (fun n => n <| hist := s_hist sn |> <| enabled_ver := s_ver sn |>) s).
-  set (s2 := if clear then s1 else _).
-  assert (C2 : cview_of s2 = cview_of s).
-  { unfold s2. destruct clear; auto.
-    destruct (get_entries (log (nd s1)) (Some (eidx (s_e0 sn))) (Some 2) None) as [|a [|b [|c r]]]; auto.
-    destruct (entry_eqb a (s_e0 sn) && entry_eqb b (s_e1 sn)); auto. }
-  set (keep := match log (nd s2) with a :: b :: _ => _ | _ => false end).
-  set (s3 := if clear || negb keep then upd _ s2 else s2).
-  assert (C3 : cview_of s3 = cview_of s) by (unfold s3; destruct (clear || negb keep); auto).
-  set (s4 := upd (fun n => n <| applied := eidx (s_e1 sn) |>) s3).
-  assert (C4 : cview_of s4 = cview_of s) by (unfold s4; auto).
+  cbv zeta.
+  match goal with |- context [update_cluster ?l ?s4] => set (s5 := s4) end.
+  assert (C5 : cview_of s5 = cview_of s).
+  { subst s5. repeat (match goal with |- context [if ?b then _ else _] => destruct b end); reflexivity. }
+  clearbody s5.
   destruct (dyn (cf e)); auto.
-  rewrite (view_cview _ _ (view_update_cluster _ _)). auto.
+  match goal with |- context [if ?b then apply_membership _ _ _ else _] => destruct b end;
+    rewrite ?(view_cview _ _ (view_apply_membership _ _ _)), (view_cview _ _ (view_update_cluster _ _)); auto.
 Qed.
 
 Lemma step_le_tick_load : forall e, step_le (tick_load e).
